@@ -498,6 +498,70 @@ pub(crate) mod verif_array {
             }
         };
     }
+    // ---- reduce: collection and initial value evaluated once each against the OUTER data; a null collection
+    // is empty, so the result is the initial value; other non-arrays / failing evaluations are errors
+    pub(crate) fn body_reduce_dispatch(cmode: u8, init_ok: bool) {
+        let iv: u64 = kani::any();
+        let data = MD::new(Value::Bool(true));
+        let null_v = MD::new(Value::Null);
+        let other_v = MD::new(num(5));
+        let init_v = MD::new(num(iv));
+        let coll_node = MD::new(Value::Null);
+        let expr_node = MD::new(Value::Null);
+        let init_node = MD::new(Value::Null);
+        let (cclass, cout): (u8, *const Value) = match cmode {
+            C_NULL => (2, &*null_v as *const Value),
+            C_OTHER => (1, &*other_v as *const Value),
+            _ => (0, &*null_v as *const Value),
+        };
+        ev::register(&coll_node, cclass, cout);
+        ev::register(&expr_node, 1, &*null_v as *const Value);
+        ev::register_num(&init_node, if init_ok { 1 } else { 0 }, &*init_v as *const Value, iv);
+        let mut args: Vec<&Value> = Vec::with_capacity(3);
+        args.push(&*coll_node);
+        args.push(&*expr_node);
+        args.push(&*init_node);
+        let args = MD::new(args);
+        let r = MD::new(reduce(&data, &args));
+        kani::cover!(true, "returned");
+        let outer_fp = ev::fingerprint(&data);
+        if cmode == C_NULL && init_ok {
+            assert!(matches!(&*r, Ok(Value::Number(x)) if x.as_u64() == Some(iv)), "reduce over a null (= empty) collection is the evaluated initial value");
+        } else {
+            assert!(r.is_err(), "reduce: a non-array collection or a failing evaluation is an error");
+        }
+        // every logged evaluation is of the collection or the initial value, against the outer data, at most once each
+        let mut seen = [0u8; 3];
+        let mut q = 0;
+        while q < ev::log_len() {
+            let (node, _) = ev::log_at(q);
+            assert!(node != 1, "reduce: the step expression must not be evaluated when there is nothing to fold");
+            assert!(unsafe { ev::LOG_DATA_FP[q] } == outer_fp, "reduce: collection and initial value are evaluated against the outer data");
+            seen[node] += 1;
+            q += 1;
+        }
+        assert!(seen[0] == 1 && seen[2] <= 1, "reduce: the collection is evaluated exactly once, the initial value at most once");
+    }
+    macro_rules! reduce_harness {
+        ($name:ident, $cmode:expr, $init_ok:expr) => {
+            #[cfg_attr(kani, kani::proof)]
+            #[cfg_attr(kani, kani::unwind(5))]
+            #[cfg_attr(kani, kani::stub(<serde_json::Value as std::clone::Clone>::clone, crate::verif_support::value_clone_shallow))]
+            #[cfg_attr(kani, kani::stub(crate::value::Parsed::from_value, crate::value::Parsed::verif_from_value_stub))]
+            #[cfg_attr(kani, kani::stub(crate::value::Parsed::evaluate, crate::value::Parsed::verif_evaluate_stub))]
+            #[cfg_attr(kani, kani::stub(std::fmt::format, crate::verif_support::fmt_stub))]
+            pub(crate) fn $name() {
+                body_reduce_dispatch($cmode, $init_ok);
+            }
+        };
+    }
+    //@ob name=C13.reduce.null harness=k_c13_reduce_null props=C13,C04,C01 strength=bounded bound="null collection; initial value symbolic" fns=op::array::reduce stubs=4 timeout=300 cutdrop=2 group=medium
+    //@ desc="reduce(null, expr, init) is the evaluated initial value (a null collection is empty); collection and initial value evaluated once against the outer data; the step expression is not evaluated"
+    reduce_harness!(k_c13_reduce_null, C_NULL, true);
+    //@ob name=C13.reduce.other harness=k_c13_reduce_other props=C13,C04,C01 strength=bounded bound="collection evaluates to a number" fns=op::array::reduce stubs=4 timeout=300 cutdrop=2 group=medium
+    //@ desc="reduce over a non-array, non-null collection is an error"
+    reduce_harness!(k_c13_reduce_other, C_OTHER, true);
+
 //@GENERATED-MAPFILTER
     //@ob name=C13.map.new.2.p3 harness=k_c13_map_new_2_p3 props=C13,C04,C06,C01 tier=off strength=bounded bound="collection outcome new; 2 elements; expression success pattern 0b11; element values and expression values symbolic" fns=op::array::map stubs=4 timeout=300 cutdrop=2 group=medium
     //@ desc="map: collection evaluated once against the outer data, expression once per element with the element itself as data, in order; result = the expression values in order (same length); null collection is empty, other non-arrays and failing evaluations are errors"
